@@ -2,6 +2,7 @@ package props
 
 import (
 	"fmt"
+	"regexp"
 	"sort"
 	"strings"
 
@@ -24,24 +25,20 @@ const classifierPkg = "mod/internal/tableclass"
 func C18(p *core.Program, r *core.Report) {
 	r.Explanation = "Decision-list conformance: every normalised branch path of tableclass.Classifier.Classify (loops unrolled once, comparisons normalised to x<=c / x==c, trivial helpers inlined) is replayed against the ordered cascade written down from the property text with three-valued logic; the code may not reach an outcome before a higher rule is decided and must reach the same (type, reason). Literal role/tag tables are compared by key set; getDirectDescendants and the converter's table case are checked the same way."
 	r.NotCovered = "the summation arithmetic of rowspan/colspan in getRowAndColumnCount (only which elements/attributes are counted is decided), hasValidText, CSS based rules of the original heuristic (not ported), behaviour for more than one loop iteration (loops are abstracted to 0/1 iterations)."
-	r.Trusted = append(r.Trusted, "names of the Classifier helper methods used as anchors (getRowAndColumnCount, getDirectDescendants, hasOneOfElements, hasValidText, logAndReturn)")
 
-	classify := mustFunc(p, r, "T1", "(*"+classifierPkg+".Classifier).Classify")
-	logRet := "(*" + classifierPkg + ".Classifier).logAndReturn"
+	// The helpers that the cascade treats as atomic questions are identified by what they are
+	// (signature, what they call; see roles.go), not by their names, and keep a role name in
+	// canonical forms.
+	ddFn, rcFn := roles(p).directDescendants, roles(p).rowsAndColumns
+	classify := mustInl(p, r, "T1", "(*"+classifierPkg+".Classifier).Classify")
 	if classify != nil {
 		opts := core.DecisionOpts{Outcome: func(in ssa.Instruction, c *core.Canon) (string, bool) {
-			if core.IsCallTo(in, logRet) {
-				a := argsCanon(c, in.(ssa.CallInstruction), 1)
-				a = strings.ReplaceAll(a, "tableclass.", "")
-				return strings.ReplaceAll(a, ",", "/"), true
-			}
 			if ret, ok := in.(*ssa.Return); ok {
-				// a return that is not fed by logAndReturn
 				var s []string
 				for _, x := range ret.Results {
-					s = append(s, c.Of(x))
+					s = append(s, strings.TrimPrefix(c.Of(x), "tableclass."))
 				}
-				return "return " + strings.Join(s, ","), true
+				return strings.Join(s, "/"), true
 			}
 			return "", false
 		}}
@@ -52,7 +49,7 @@ func C18(p *core.Program, r *core.Report) {
 		r.Stats["classify_paths"] = len(paths)
 		r.Stats["classify_atoms"] = len(atoms)
 		td := `elem(μ(…append(…)…))`
-		dd := `tableclass.Classifier.getDirectDescendants($0,$1)`
+		dd := `@directDescendants($0,$1)`
 		par := `μ($1.Parent|@0.Parent)`
 		role := `strings.ToLower(dom.GetAttribute($1,"role"))`
 		drole := `strings.ToLower(dom.GetAttribute(elem(` + dd + `),"role"))`
@@ -69,13 +66,13 @@ func C18(p *core.Program, r *core.Report) {
 				"desc.tablerole":    q(`in(tableclass.ariaTableDescendantRoles,` + drole + `)`),
 				"datatable0":        q(`dom.GetAttribute($1,"datatable") == "0"`),
 				"no.nested":         q(`len(dom.GetElementsByTagName($1,"table")) <= 0`),
-				"rows<=1":           q(`tableclass.Classifier.getRowAndColumnCount($0,$1)#0 <= 1`),
-				"cols<=1":           q(`tableclass.Classifier.getRowAndColumnCount($0,$1)#1 <= 1`),
+				"rows<=1":           q(`@rowsAndColumns($0,$1)#0 <= 1`),
+				"cols<=1":           q(`@rowsAndColumns($0,$1)#1 <= 1`),
 				"no.caption":        q(`dom.QuerySelector($1,"caption") == nil`),
-				"caption.text":      q(`tableclass.Classifier.hasValidText($0,dom.QuerySelector($1,"caption"))`),
+				"caption.text":      q(`@hasValidText($0,dom.QuerySelector($1,"caption"))`),
 				"no.thead":          q(`dom.QuerySelector($1,"thead") == nil`),
 				"no.tfoot":          q(`dom.QuerySelector($1,"tfoot") == nil`),
-				"header.tags":       q(`tableclass.Classifier.hasOneOfElements($0,` + dd + `,tableclass.headerTags)`),
+				"header.tags":       q(`@hasOneOf($0,` + dd + `,tableclass.headerTags)`),
 				"loop.collect":      qw(`loop3(… < len(` + dd + `))`),
 				"collect.td":        q(`dom.TagName(elem(` + dd + `)) == "td"`),
 				"loop.td":           qw(`loop4(… < len(μ(…append(…)…)))`),
@@ -83,12 +80,12 @@ func C18(p *core.Program, r *core.Report) {
 				"td.headers":        qw(`dom.HasAttribute(` + td + `,"headers")`),
 				"td.scope":          qw(`dom.HasAttribute(` + td + `,"scope")`),
 				"td.onechild":       qw(`len(dom.GetElementsByTagName(` + td + `,"*")) == 1`),
-				"td.child.abbr":     qw(`dom.TagName(elem(dom.GetElementsByTagName(` + td + `,"*"))) == "abbr"`),
+				"td.child.abbr":     qw(`dom.TagName(dom.GetElementsByTagName(` + td + `,"*")[0]) == "abbr"`),
 				"summary":           q(`dom.HasAttribute($1,"summary")`),
-				"cols<=4":           q(`tableclass.Classifier.getRowAndColumnCount($0,$1)#1 <= 4`),
-				"rows<=19":          q(`tableclass.Classifier.getRowAndColumnCount($0,$1)#0 <= 19`),
+				"cols<=4":           q(`@rowsAndColumns($0,$1)#1 <= 4`),
+				"rows<=19":          q(`@rowsAndColumns($0,$1)#0 <= 19`),
 				"cells<=10":         qw(`len(μ(…append(…)…)) <= 10`),
-				"object.tags":       q(`tableclass.Classifier.hasOneOfElements($0,` + dd + `,tableclass.objectTags)`),
+				"object.tags":       q(`@hasOneOf($0,` + dd + `,tableclass.objectTags)`),
 			},
 			Rules: []core.SpecRule{
 				{"1 editable ancestor -> layout", core.And(core.Not(core.A("loop.ancestors")), core.Or(core.A("anc.input"), core.A("anc.editable"))), "Layout/InsideEditableArea"},
@@ -158,7 +155,12 @@ func C18(p *core.Program, r *core.Report) {
 	}
 
 	// T3: getDirectDescendants
-	gdd := mustFunc(p, r, "T3", "(*"+classifierPkg+".Classifier).getDirectDescendants")
+	var gdd *ssa.Function
+	if ddFn == nil {
+		r.Undecided("T3", "the helper that collects the direct descendants of a table", "no helper of Classify with the signature (table) []*html.Node found")
+	} else {
+		gdd = p.Inlined(ddFn)
+	}
 	if gdd != nil {
 		opts := core.DecisionOpts{Outcome: func(in ssa.Instruction, c *core.Canon) (string, bool) {
 			if call, ok := in.(*ssa.Call); ok {
@@ -205,7 +207,12 @@ func C18(p *core.Program, r *core.Report) {
 
 	// T5: what counts as a row / a column: rows are tr elements (rowspan aware), columns are the
 	// td cells of a row (colspan aware). Decided on the constants handed to the DOM helpers.
-	rc := mustFunc(p, r, "T5", "(*"+classifierPkg+".Classifier).getRowAndColumnCount")
+	var rc *ssa.Function
+	if rcFn == nil {
+		r.Undecided("T5", "the helper that counts rows and columns", "no helper of Classify returning (int, int) found")
+	} else {
+		rc = p.Inlined(rcFn)
+	}
 	if rc != nil {
 		consts := map[string]bool{}
 		for _, c := range core.Calls(rc, func(c ssa.CallInstruction) bool {
@@ -224,7 +231,7 @@ func C18(p *core.Program, r *core.Report) {
 		}
 		sort.Strings(got)
 		want := []string{"colspan", "rowspan", "td", "tr"}
-		r.Add("T5", "getRowAndColumnCount: selectors and span attributes", p.Pos(rc.Pos()), sameSet(got, want),
+		r.Add("T5", "row/column count: selectors and span attributes", p.Pos(rc.Pos()), sameSet(got, want),
 			fmt.Sprintf("DOM selector/attribute constants used: %v; documented: rows=tr (rowspan), columns=td cells per row (colspan): %v", got, want))
 	}
 }
@@ -244,52 +251,28 @@ func exprText(e any) string {
 // Data -> AddDataTable(node) and the subtree is not walked (return false); otherwise the table
 // is walked like any container (StartNode, return true).
 func checkConverterTableCase(p *core.Program, r *core.Report) {
-	fn := mustFunc(p, r, "T4", "(*mod/internal/converter.DomConverter).visitElementNodeHandler")
+	fn, _ := walkHandlers(p, r, "T4")
 	if fn == nil {
 		return
 	}
 	classifyKey := "(*" + classifierPkg + ".Classifier).Classify"
 	calls := core.Calls(fn, func(c ssa.CallInstruction) bool { return core.IsCallTo(c, classifyKey) })
 	if len(calls) != 1 {
-		r.Undecided("T4", "visitElementNodeHandler calls Classify", fmt.Sprintf("expected exactly one call to Classify, found %d", len(calls)))
+		r.Undecided("T4", "the element visitor calls Classify", fmt.Sprintf("expected exactly one call to Classify, found %d", len(calls)))
 		return
 	}
 	call := calls[0].(*ssa.Call)
-	isData := func(v ssa.Value) bool {
-		b, ok := v.(*ssa.BinOp)
-		if !ok {
-			return false
-		}
-		var other ssa.Value
-		if ex, ok := b.X.(*ssa.Extract); ok && ex.Tuple == call && ex.Index == 0 {
-			other = b.Y
-		} else if ex, ok := b.Y.(*ssa.Extract); ok && ex.Tuple == call && ex.Index == 0 {
-			other = b.X
-		}
-		if other == nil {
-			return false
-		}
-		c := core.NewCanon(p)
-		return c.Of(other) == "tableclass.Data"
-	}
-	// the comparison Classify(...)#0 == Data must exist as a branch
-	cutData := core.EdgeSet{}
-	nData := core.AddCutWhere(cutData, fn, func(v ssa.Value) bool {
-		b, ok := v.(*ssa.BinOp)
-		return ok && b.Op.String() == "==" && isData(v)
-	}, true)
-	cutNotData := core.EdgeSet{}
-	core.AddCutWhere(cutNotData, fn, func(v ssa.Value) bool {
-		b, ok := v.(*ssa.BinOp)
-		return ok && b.Op.String() == "==" && isData(v)
-	}, false)
-	if nData != 1 {
-		r.Add("T4", "visitElementNodeHandler: branch on Classify()==Data", p.Pos(call.Pos()), false, fmt.Sprintf("expected one branch comparing the classification with tableclass.Data, found %d", nData))
+	// the comparison Classify(...)#0 == Data must exist as a branch (however it is spelled)
+	reData := regexp.MustCompile(`^tableclass\.Classifier\.Classify\(.*\)#0 == tableclass\.Data$`)
+	cutData, mData := core.CutAtoms(p, fn, reData, true)
+	cutNotData, _ := core.CutAtoms(p, fn, reData, false)
+	if len(mData) != 1 {
+		r.Add("T4", "element visitor: branch on Classify()==Data", p.Pos(call.Pos()), false, fmt.Sprintf("expected one branch comparing the classification with tableclass.Data, found %d", len(mData)))
 		return
 	}
 	addTables := core.Calls(fn, func(c ssa.CallInstruction) bool { return core.IsCallTo(c, "iface:AddDataTable") })
 	if len(addTables) == 0 {
-		r.Add("T4", "visitElementNodeHandler: AddDataTable", p.Pos(call.Pos()), false, "no call to DocumentBuilder.AddDataTable: data tables are never kept as a unit")
+		r.Add("T4", "element visitor: AddDataTable", p.Pos(call.Pos()), false, "no call to DocumentBuilder.AddDataTable: data tables are never kept as a unit")
 		return
 	}
 	for _, at := range addTables {
